@@ -53,6 +53,8 @@ MonInit ==
     ctx |-> "loop",        \* kind of the last callback / API object
     fatal |-> "",
     blocked |-> FALSE,     \* the loop thread sits in a wait that found nothing
+    opaque |-> FALSE,      \* objects of other subsystems hold loop references
+                           \* whose release is not observable here
     viols |-> {}, seen |-> {} ]
 
 V(m, rule) == [m EXCEPT !.viols = @ \cup {rule}]
@@ -111,7 +113,9 @@ ApiStep(m0, e) ==
                            ELSE S(m, "C07:failed-reg")
     [] e.op = "raw_unreg" -> [m EXCEPT !.raw[o].reg = FALSE, !.raw[o].needs = FALSE]
     [] e.op = "raw_post" -> m
-    [] e.op = "quit" -> IF m.inMain THEN [m EXCEPT !.quit = TRUE] ELSE m
+    [] e.op = "quit" -> IF m.inMain /\ e.t = 0 THEN [m EXCEPT !.quit = TRUE] ELSE m
+    [] e.op \in {"pool_create", "submit", "submit_cont", "thr_create", "sig_reg", "wait_reg", "popen", "ino_reg"} ->
+         [m EXCEPT !.opaque = TRUE]
     [] OTHER -> m
 
 -----------------------------------------------------------------------------
@@ -191,7 +195,7 @@ EffDeadline(e) ==
 
 WaitEnter(m0, e) ==
   LET m1 == DueCheck(m0)
-      m2 == Chk(m1, m1.inMain, ~(m1.quit \/ UserObjs(m1) = 0), "C07:poll-without-objs")
+      m2 == Chk(m1, m1.inMain /\ ~m1.opaque, ~(m1.quit \/ UserObjs(m1) = 0), "C07:poll-without-objs")
       eff == EffDeadline(e)
       tasks == \E k \in Obj : m2.tk[k].st = "reg"
       m3 == Chk(m2, tasks, ~IsNone(eff) /\ TsLeq(eff, e.now), "C06:nonzero-timeout")
@@ -246,10 +250,10 @@ MainBegin(m) ==
 
 MainEnd(m0) ==
   LET m == DueCheck(m0) IN
-  [Chk(m, TRUE, m.quit \/ UserObjs(m) = 0, "C07:return-with-objs") EXCEPT !.inMain = FALSE]
+  [Chk(m, ~m.opaque, m.quit \/ UserObjs(m) = 0, "C07:return-with-objs") EXCEPT !.inMain = FALSE]
 
 EndStep(m, e) ==
-  CASE e.why \in {"ok", "hang", "runaway", "skipped"} -> m
+  CASE e.why \in {"ok", "hang", "runaway", "skipped", "toomanythreads", "toomanylocks"} -> m
     [] e.why = "timeout" -> V(V(m, "C07:hang-real"), KindProp(m.ctx) \o ":hang-real")
     [] OTHER ->  \* crash, abort, killed, exit, badcookie
        LET heap == m.fatal = "timer"
@@ -272,7 +276,7 @@ LoopStep(m, e) ==
     [] OTHER -> m
 
 MonStep(m, e) ==
-  CASE e.e = "A" -> ApiStep(m, e)
+  CASE e.e = "A" -> IF e.t = 0 THEN ApiStep(m, e) ELSE m   \* other threads: only posts matter (PostB)
     [] e.e = "PostB" -> PostBegin(m, e)
     [] e.e \in {"CbB", "WE", "Blk", "WR", "Clk", "MainB", "MainE"} ->
          IF e.t = 0 THEN LoopStep(m, e)
